@@ -247,7 +247,7 @@ func (c *Client) StartState(e *am.Event) {
 	// init net mach
 	nmConn := &clientNetMachConn{rpc: c}
 	// tmp state names
-	stateNames := slices.Collect(maps.Keys(c.schema))
+	stateNames := slices.Sorted(maps.Keys(c.schema))
 	id := PrefixNetMach + c.Id
 	// RPC parent or actual parent
 	var parent am.Api = c.Mach
